@@ -189,6 +189,9 @@ MUTANTS = [
     Mutant("c18-interim-store-resets", "C18", FE, [
         ("        if delete_stats:\n            self.sum = self.sumsq = self.count = None", "        self.sum = self.sumsq = self.count = None"),
     ]),
+    Mutant("c18-deleting-store-keeps-stats", "C18", FE, [
+        ("        if delete_stats:\n            self.sum = self.sumsq = self.count = None", "        if delete_stats and bessel:\n            self.sum = self.sumsq = self.count = None"),
+    ]),
     # ---- C11 -------------------------------------------------------------------------
     Mutant("c11-read-trn-unordered", "C11", PA, [
         ("            transcripts = pool.imap(\n", "            transcripts = pool.imap_unordered(\n"),
